@@ -411,15 +411,31 @@ def fact_geq0(e: ast.AST, pol: bool) -> Optional[Tuple[Dict[str, float], float, 
     return {k: v for k, v in coefs.items() if v != 0}, kb - ks, strict, ab
 
 
+def unwalrus(e: ast.AST) -> ast.AST:
+    """``(m := f(x))`` -> ``m`` everywhere in ``e`` (what the expression says about the bound name afterwards)."""
+    if not any(isinstance(x, ast.NamedExpr) for x in ast.walk(e)):
+        return e
+
+    class T(ast.NodeTransformer):
+        def visit_NamedExpr(self, node):
+            return ast.copy_location(ast.Name(id=node.target.id, ctx=ast.Load()), node)
+
+    return ast.fix_missing_locations(T().visit(copy.deepcopy(e)))
+
+
 def parsed_facts(facts: Iterable[Tuple[str, bool]]) -> List[Tuple[ast.AST, bool, str]]:
     out = []
     for text, pol in facts:
         if text.startswith("@"):
             continue
         try:
-            out.append((ast.parse(text, mode="eval").body, pol, text))
+            e = ast.parse(text, mode="eval").body
         except SyntaxError:
             continue
+        out.append((e, pol, text))
+        if any(isinstance(x, ast.NamedExpr) for x in ast.walk(e)):
+            # a test on an assignment expression is also a fact about the name it binds
+            out.append((unwalrus(e), pol, text))
     return out
 
 
@@ -756,7 +772,9 @@ class Escapes:
                     continue
                 ds = rd.defs_at(ns[0], x.value.id)
                 if ds and all(d.kind == "assign" and isinstance(d.value, ast.Call) and isinstance(d.value.func, ast.Attribute) and d.value.func.attr in ("match", "fullmatch", "search") for d in ds):
-                    fs = facts[ns[0].id]
+                    fs = set(facts[ns[0].id])
+                    for fe_, fp_, _ft in parsed_facts(facts[ns[0].id]):
+                        fs.add(canon_fact(fe_, fp_))
                     nm = x.value.id
                     if not ((nm, True) in fs or ("%s is None" % nm, False) in fs):
                         add(x, "AttributeError", "none-attr", "match object may be None")
